@@ -9,7 +9,9 @@ def main():
     fam = sys.argv[1]
     n = int(sys.argv[2]) if len(sys.argv) > 2 else 40
     out_path = sys.argv[3] if len(sys.argv) > 3 else None
-    if fam == "fixed":
+    if fam.endswith("_fixed"):
+        cases = getattr(families, "fam_" + fam)()
+    elif fam == "fixed":
         cases = families.fam_expr_fixed()
     else:
         f = getattr(families, "fam_" + fam)
